@@ -274,7 +274,7 @@ def dict_tree():
     return obs
 
 
-@scenario("macros:resolve_all", ME + ".resolve_all_macros", ["C13", "C19", "C17"], inlined=["_resolve_macro"],
+@scenario("macros:resolve_all", ME + ".resolve_all_macros", ["C13", "C19", "C17", "C14"], inlined=["_resolve_macro"],
           doc="ordered fold over the macro list on a deep copy; name validation; leftovers reported")
 def resolve_all():
     ensure()
@@ -344,6 +344,13 @@ def resolve_all():
                 obs.append(simple_ob(base + ":POST-fold", func, "POST",
                                      "result = subst1(m_n, ... subst1(m_1, deepcopy(pattern)) ...): every macro applied exactly once, in list order, to the result of the previous one",
                                      names == ["@m%d" % k for k in range(1, n + 1)] and got_norm == exp, P13, detail=got_norm, witness=got_norm))
+                first_tree = applies[0][2] if applies else r
+                obs.append(simple_ob(base + ":FRAME-pattern", func, "FRAME",
+                                     "the pattern tree handed in is neither modified nor the object the macros are applied to: expansion works "
+                                     "on a deep copy (a second compilation from the same loaded document sees the pattern as written)",
+                                     first_tree is not tree and list(tree.keys()) == ["$and"] and len(tree["$and"]) == 1
+                                     and isinstance(tree["$and"][0], Opaque) and (first_tree is not r or not applies),
+                                     ["C13", "C14", "C19"], detail=f"same object: {first_tree is tree}", witness=repr(first_tree is tree)))
                 collects = [x for x in lg if x[0] == "collect"]
                 obs.append(simple_ob(base + ":POST-final-scan", func, "POST",
                                      "the returned tree is the one that was scanned for remaining macro names (Names@(result) = {} on normal return)",
